@@ -444,6 +444,104 @@ def t_early_continue(tree):
     return _EarlyContinue().visit(tree)
 
 
+class _CompToLoop(ast.NodeTransformer):
+    """`x = [e for t in it if c]` -> `x = []` + loop with append;
+    `x = {k: v for t in it if c}` -> `x = dict()` + loop with store.  Only
+    for single-generator comprehensions assigned to a plain name at
+    statement level, whose loop variables occur nowhere else in the
+    function (a for-loop's variables outlive the loop, a comprehension's
+    do not) and that do not mention the name they are assigned to."""
+
+    def visit_FunctionDef(self, fn):
+        self.generic_visit(fn)
+        counts = dict()
+        for x in ast.walk(fn):
+            if isinstance(x, ast.Name):
+                counts[x.id] = counts.get(x.id, 0) + 1
+            elif isinstance(x, ast.arg):
+                counts[x.arg] = counts.get(x.arg, 0) + 1
+
+        def inside(comp):
+            c = dict()
+            for x in ast.walk(comp):
+                if isinstance(x, ast.Name):
+                    c[x.id] = c.get(x.id, 0) + 1
+            return c
+
+        def rewrite(stmts):
+            out = []
+            for st in stmts:
+                for field in ('body', 'orelse', 'finalbody'):
+                    v = getattr(st, field, None)
+                    if isinstance(v, list) and v and isinstance(
+                            v[0], ast.stmt):
+                        setattr(st, field, rewrite(v))
+                if isinstance(st, ast.Try):
+                    for h in st.handlers:
+                        h.body = rewrite(h.body)
+                if isinstance(st, ast.With):
+                    pass
+                ok = (isinstance(st, ast.Assign) and len(st.targets) == 1
+                      and isinstance(st.targets[0], ast.Name)
+                      and isinstance(st.value, (ast.ListComp, ast.DictComp))
+                      and len(st.value.generators) == 1
+                      and not st.value.generators[0].is_async)
+                if ok:
+                    comp = st.value
+                    g = comp.generators[0]
+                    tnames = {x.id for x in ast.walk(g.target)
+                              if isinstance(x, ast.Name)}
+                    ins = inside(comp)
+                    name = st.targets[0].id
+                    if name in ins or any(
+                            counts.get(t, 0) != ins.get(t, 0)
+                            for t in tnames) or any(
+                                isinstance(x, (ast.ListComp, ast.DictComp,
+                                               ast.SetComp, ast.GeneratorExp,
+                                               ast.Lambda))
+                                for x in ast.walk(comp) if x is not comp):
+                        ok = False
+                if not ok:
+                    out.append(st)
+                    continue
+                if isinstance(comp, ast.ListComp):
+                    init = ast.Assign(
+                        targets=[ast.Name(id=name, ctx=ast.Store())],
+                        value=ast.List(elts=[], ctx=ast.Load()))
+                    act = ast.Expr(value=ast.Call(
+                        func=ast.Attribute(
+                            value=ast.Name(id=name, ctx=ast.Load()),
+                            attr='append', ctx=ast.Load()),
+                        args=[comp.elt], keywords=[]))
+                else:
+                    init = ast.Assign(
+                        targets=[ast.Name(id=name, ctx=ast.Store())],
+                        value=ast.Call(func=ast.Name(id='dict',
+                                                     ctx=ast.Load()),
+                                       args=[], keywords=[]))
+                    act = ast.Assign(
+                        targets=[ast.Subscript(
+                            value=ast.Name(id=name, ctx=ast.Load()),
+                            slice=comp.key, ctx=ast.Store())],
+                        value=comp.value)
+                body = [act]
+                for cond in reversed(g.ifs):
+                    body = [ast.If(test=cond, body=body, orelse=[])]
+                loop = ast.For(target=g.target, iter=g.iter, body=body,
+                               orelse=[])
+                for nd in (init, loop):
+                    ast.copy_location(nd, st)
+                    ast.fix_missing_locations(nd)
+                out += [init, loop]
+            return out
+        fn.body = rewrite(fn.body)
+        return fn
+
+
+def t_comp_to_loop(tree):
+    return _CompToLoop().visit(tree)
+
+
 def t_opaque_locals(tree):
     return t_rename_locals(tree, suffix=None)
 
@@ -462,6 +560,7 @@ TRANSFORMS = {
     'temp-return': t_temp_return,
     'temp-cond': t_temp_cond,
     'early-continue': t_early_continue,
+    'comp-to-loop': t_comp_to_loop,
 }
 
 
